@@ -163,7 +163,7 @@ def write_evidence(prop, tier, acc, wall, assumptions, rule, nviol):
         "wall_s": round(wall, 3),
         "violations": int(nviol),
     }
-    d = os.path.join(env.VERIF, "evidence")
+    d = os.path.join(env.OUT, "evidence")
     os.makedirs(d, exist_ok=True)
     tmp = os.path.join(d, f".{prop}.json.tmp{os.getpid()}")
     with open(tmp, "w") as f:
@@ -174,7 +174,7 @@ def write_evidence(prop, tier, acc, wall, assumptions, rule, nviol):
 
 
 def write_replay(prop, v):
-    d = os.path.join(env.VERIF, "replays", prop)
+    d = os.path.join(env.OUT, "replays", prop)
     os.makedirs(d, exist_ok=True)
     h = hashlib.sha256(v["sig"].encode()).hexdigest()[:12]
     p = os.path.join(d, f"{h}.json")
